@@ -54,7 +54,7 @@ def plan(tier, seed):
     specs.extend(big.specs(tier, seed, 'C01'))
     meta = dict(
         rule=RULE,
-        require=['big_histories', 'binary_results', 'ite_results', 'function_op_results',
+        require=['big_histories', 'huge_histories', 'binary_results', 'ite_results', 'function_op_results',
                  'history_results', 'steps', 'cache_entries_checked',
                  'dynamic_histories'],
         assumptions=[
@@ -222,7 +222,7 @@ def sweep_ite(ctx, bdd, sp, R, tt_of, order, gs, triples=None,
                 break
             if k % 4 == 3:
                 # operands are held: a collection only empties the cache
-                ctx.counters['cache_entries_seen'] += len(bdd._ite_table)
+                ctx.counters['cache_entries_seen'] += monitors.entries(bdd._ite_table)
                 bdd.collect_garbage()
         ctx.distinct_enum += nt
     ctx.counters['evaluations'] += n
@@ -391,7 +391,7 @@ def _random_history(ctx, spec, rng, names, kind, reg, dynamic):
         if not ok:
             break
         desc, den = res
-        ctx.counters['cache_entries_checked'] += len(w.raw._ite_table)
+        ctx.counters['cache_entries_checked'] += monitors.entries(w.raw._ite_table)
         if desc[0] in ('apply', 'ite', 'not'):
             ctx.case(True, 'random', spec['n'], desc, w.pool[-1].tt,
                      tuple(sorted(w.raw.vars.items())))
